@@ -36,8 +36,9 @@ func JSONPBWithOpt(m protoreflect.ProtoMessage, filename string, fs afero.Fs, o 
 	return FJSONPBWithOpt(f, m, o)
 }
 
-// Recognise extra whitespace after a JSON key.
-var extraSpaceAfterKeyRE = regexp.MustCompile(`(?m)^(\s*"[^"]*": ) `)
+// Recognise extra whitespace after a JSON key. The key is matched as a JSON string (escape-aware), so that
+// an escaped quote inside a key or a string element cannot end it early.
+var extraSpaceAfterKeyRE = regexp.MustCompile(`(?m)^(\s*"(?:[^"\\]|\\.)*": ) `)
 
 // FJSONPB ...
 func FJSONPB(w io.Writer, m protoreflect.ProtoMessage) error {
